@@ -71,6 +71,7 @@ impl Prop for C06 {
     let (pos, _) = positions(&text);
     let mut nt = rich(spec);
     let mut cut_inside = false;
+    let mut warm_inner = false;
     for columns in [true, false] {
       let (got, mappings) = full_attr(spec, &text, columns)?;
       match spec {
@@ -160,6 +161,42 @@ impl Prop for C06 {
         }
         _ => return Err("harness: C06 case root must be Concat or Replace".into()),
       }
+      // the same clause for a *warm* inner CachedSource: its replay hands the ReplaceSource other chunks (cut by the cached
+      // map, made of several rope pieces when the inner source is a composite) than the cold stream did.  The model is fed
+      // with the chunk stream of an equally warmed twin of the inner source; the ReplaceSource is asked map() twice.
+      if let (true, Spec::Replace { inner, repls }) = (columns, spec) {
+        if matches!(**inner, Spec::Cached(_)) {
+          let st = guard(|| {
+            let c = crate::build::build(inner);
+            let _ = crate::observe::stream(&*c, &opts(true, false));
+            crate::observe::stream(&*c, &opts(true, false))
+          })
+          .map_err(|p| format!("warm inner stream: {p}"))?;
+          let map = guard(|| {
+            let r = crate::build::build(spec);
+            let _ = r.map(&opts(true, false));
+            r.map(&opts(true, false))
+          })
+          .map_err(|p| format!("second map(): {p}"))?;
+          let got_w = attr_from_map(map.as_ref(), &text, true)?;
+          let pieces = model_replace(&st, repls);
+          let mut off = 0;
+          for p in &pieces {
+            for j in 0..p.text.len() {
+              if got_w[off + j] != p.attr {
+                return Err(format!(
+                  "ReplaceSource over a warm CachedSource, second map(): byte {} ({}:{}) of {text:?} ({} {:?}) resolves to {:?}, the splice model fed with the warm inner stream says {:?}; mappings={:?} inner chunks={:?}",
+                  off + j, pos[off + j].0, pos[off + j].1,
+                  if p.is_repl { "replacement content" } else { "inner text" }, p.text, got_w[off + j], p.attr,
+                  map.as_ref().map(|m| m.mappings().to_string()), st.chunks
+                ));
+              }
+            }
+            off += p.text.len();
+          }
+          warm_inner = true;
+        }
+      }
     }
     if matches!(spec, Spec::Replace { .. }) {
       nt &= cut_inside;
@@ -171,6 +208,7 @@ impl Prop for C06 {
         .class(matches!(spec, Spec::Replace { .. }), "root ReplaceSource")
         .class(matches!(spec, Spec::Concat { .. }), "root ConcatSource")
         .class(cut_inside, "cut strictly inside a mapped chunk")
+        .class(warm_inner, "ReplaceSource over a warm CachedSource (second map())")
         .class(rich(spec), "leaf map with >=2 sources or a name"),
     )
   }
